@@ -212,17 +212,38 @@ fn minimise(scenario: &str, p: P, fail_env: &Env, prelude_fail: &[Job], prelude_
         match dd {
             Some(x) => {
                 d = Some(x);
-                // shrink the prelude greedily (drop jobs from the front)
-                prelude = prelude_fail.to_vec();
-                let mut i = 0;
-                while i < prelude.len() && trials_c.get() < 80 {
-                    let mut cand = prelude.clone();
-                    cand.remove(i);
+                // shortest suffix of the history that still reproduces (doubling), then drop
+                // chunks inside it (bounded): the culprit is usually one earlier job
+                let full = prelude_fail.to_vec();
+                let mut len = 1usize;
+                prelude = full.clone();
+                while len < full.len() && trials_c.get() < 40 {
+                    let cand = full[full.len() - len..].to_vec();
                     if differs(&reference, &run(p, fail_env, &cand)).is_some() {
                         prelude = cand;
-                    } else {
-                        i += 1;
+                        break;
                     }
+                    len *= 2;
+                }
+                let mut chunk = (prelude.len() / 2).max(1);
+                while prelude.len() > 1 && trials_c.get() < 60 {
+                    let mut i = 0;
+                    let mut removed = false;
+                    while i < prelude.len() && prelude.len() > 1 && trials_c.get() < 60 {
+                        let mut cand = prelude.clone();
+                        let end = (i + chunk).min(cand.len());
+                        cand.drain(i..end);
+                        if !cand.is_empty() && differs(&reference, &run(p, fail_env, &cand)).is_some() {
+                            prelude = cand;
+                            removed = true;
+                        } else {
+                            i += chunk;
+                        }
+                    }
+                    if chunk == 1 && !removed {
+                        break;
+                    }
+                    chunk = (chunk / 2).max(1);
                 }
             }
             None => return Err("difference seen in the batch did not reproduce in fresh processes, with or without its process history".into()),
@@ -305,7 +326,14 @@ fn minimise(scenario: &str, p: P, fail_env: &Env, prelude_fail: &[Job], prelude_
         scenario: scenario.to_string(),
         p: pp,
         env_ref: e0.clone(),
-        cause: cause_of(&cur, &e0),
+        cause: {
+            let c = cause_of(&cur, &e0);
+            if prelude.is_empty() || c.contains("history") {
+                c
+            } else {
+                format!("history+{c}")
+            }
+        },
         env_fail: cur,
         prelude,
         field,
@@ -458,7 +486,17 @@ pub fn check(tier: &str, seed: u64, only: Option<&str>) -> i32 {
     let mut known_hits = Vec::new();
     let mut unreproducible = Vec::new();
     let max_classes = if tier == "thorough" { 40 } else { 24 };
+    let budget_s = if tier == "thorough" { 900.0 } else { 180.0 };
+    let t_min = crate::seams::real_now_s();
+    let mut skipped_for_time = 0usize;
     for ((name, fkey), list) in classes.iter().take(max_classes) {
+        if reported > 0 && crate::seams::real_now_s() - t_min > budget_s {
+            // at least one violation is already confirmed, minimised and reported: the
+            // remaining classes are listed, not minimised
+            skipped_for_time += 1;
+            println!("  C20: further divergence (not minimised, time budget): scenario {name} field `{fkey}` ({} runs)", list.len());
+            continue;
+        }
         let (ri, fi) = list[0];
         let p = planned.meta[fi].1;
         let fail_env = job_env(&planned.jobs[fi]).clone();
@@ -516,6 +554,7 @@ pub fn check(tier: &str, seed: u64, only: Option<&str>) -> i32 {
         }
     }
     write_c20_evidence(tier, seed, evaluations, &distinct, &pool_sizes, &tot, &matrix, &controls_fired, &controls_seen, &kth_positions, sim_time_ns, &samples, &planned, &reg, reported, &known_hits, t0, wall_batch, &nocompare_crashes, classes.len(), fresh_runs, schedules.len());
+    let _ = skipped_for_time;
     println!(
         "C20 {tier}: {} simulated runs over {} scenarios, {} distinct non-trivial, {} divergence classes ({} reported, {} known), {:.1}s",
         evaluations,
